@@ -1,6 +1,10 @@
 """C10 -- equation of state: thermodynamic consistency and smooth extrapolation."""
 import json
 import math
+import random
+import re
+import subprocess
+import traceback
 from fractions import Fraction
 
 import numpy as np
@@ -67,8 +71,9 @@ def impl_values(th, T):
     return out
 
 
-def direct_checks(ctx, th, label, case):
-    """The property evaluated on the implementation object `th` (after setExtrapolate)."""
+def direct_checks(ctx, th, label, case, extra=None):
+    """The property evaluated on the implementation object `th` (after setExtrapolate).
+    extra: {phase: [temperatures]} additional probe points (e.g. table nodes)."""
     ok = True
     for ph in ("High", "Low"):
         lo = getattr(th, "TMin" + ph + "T")
@@ -77,7 +82,9 @@ def direct_checks(ctx, th, label, case):
         e, de, w, csq = (getattr(th, f + ph + "T") for f in ("e", "de", "w", "csq"))
         grid = [lo * x for x in (0.2, 0.5, 0.9, 0.999)] + \
             [lo + (hi - lo) * x for x in (0.0, 0.1, 0.5, 0.9, 1.0)] + \
-            [hi * x for x in (1.001, 1.1, 2.0, 7.0)]
+            [hi * x for x in (1.001, 1.1, 2.0, 7.0)] + \
+            [lo * (1 - 5e-6), lo * (1 + 5e-6), hi * (1 - 5e-6), hi * (1 + 5e-6)] + \
+            list((extra or {}).get(ph, []))
         for T in grid:
             vals = dict(p=float(p(T)), dp=float(dp(T)), ddp=float(ddp(T)), e=float(e(T)),
                         de=float(de(T)), w=float(w(T)), csq=float(csq(T)))
@@ -103,14 +110,17 @@ def direct_checks(ctx, th, label, case):
                 # spline, so across a knot the difference quotient of dp is off by about
                 # h/4 times the jump of the third derivative (seen as a false alarm at
                 # h = 1e-5 T on a noisy non-paranoid table); rounding costs ~1e-16 |p| / h.
-                h = 1e-6 * T
+                # (a node of a table whose first steps are 1e-4 apart showed the same effect
+                # at h = 1e-6 T, marginally); h = 1e-8 T keeps the knot term below 1e-7
+                # relative and rounding at ~1e-8 (p + T dp) / T
+                h = 1e-8 * T
                 if min(abs(T - lo), abs(T - hi)) > 2 * h:
                     d1 = (float(p(T + h)) - float(p(T - h))) / (2 * h)
                     d2 = (float(dp(T + h)) - float(dp(T - h))) / (2 * h)
-                    if abs(d1 - vals["dp"]) > 3e-6 * abs(vals["dp"]) + 1e-9 * sc / T:
+                    if abs(d1 - vals["dp"]) > 3e-6 * abs(vals["dp"]) + 1e-7 * sc / T:
                         bad = "dp is not the derivative of p"
                     elif abs(d2 - vals["ddp"]) > 3e-6 * abs(vals["ddp"]) + \
-                            1e-8 * sc / T ** 2:
+                            1e-7 * sc / T ** 2:
                         bad = "ddp is not the derivative of dp"
             if bad:
                 ok = False
@@ -121,10 +131,13 @@ def direct_checks(ctx, th, label, case):
         # continuity across both ends
         for end, Tb in (("TMin", lo), ("TMax", hi)):
             d = 1e-9 * Tb
-            for fn, f, scale in (("p", p, None), ("dp", dp, None), ("ddp", ddp, None),
-                                 ("csq", csq, None)):
+            # scale of each quantity: its own size plus T times its derivative (p may pass
+            # through zero at a range end: |p| alone is no scale)
+            pe, dpe, ddpe = abs(float(p(Tb))), abs(float(dp(Tb))), abs(float(ddp(Tb)))
+            for fn, f, scale in (("p", p, pe + Tb * dpe), ("dp", dp, dpe + Tb * ddpe),
+                                 ("ddp", ddp, ddpe + dpe / Tb), ("csq", csq, 0.0)):
                 a, b0, c = float(f(Tb - d)), float(f(Tb)), float(f(Tb + d))
-                ref = abs(b0) + 1e-300
+                ref = abs(b0) + scale + 1e-300
                 ctx.count("continuity_" + label)
                 if not (abs(a - b0) <= 1e-6 * ref and abs(c - b0) <= 1e-6 * ref):
                     ok = False
@@ -139,6 +152,78 @@ def direct_checks(ctx, th, label, case):
 
 def jfr(x):
     return [str(Fraction(v)) for v in x]
+
+
+RANGE_ATTRS = (("TMaxHighT", "freeEnergyHigh", "maxPossibleTemperature"),
+               ("TMinHighT", "freeEnergyHigh", "minPossibleTemperature"),
+               ("TMaxLowT", "freeEnergyLow", "maxPossibleTemperature"),
+               ("TMinLowT", "freeEnergyLow", "minPossibleTemperature"))
+
+
+def fresh_twin(th):
+    """A new Thermodynamics object on the SAME two free-energy objects, in the state
+    __init__ leaves it in, after one setExtrapolate(): what `th` must be indistinguishable
+    from whatever its history was (caches, stale copies, order dependence show up here)."""
+    t2 = object.__new__(type(th))
+    t2.__dict__.update(th.__dict__)
+    for a in gen_thermo.ATTRS:
+        setattr(t2, a, 0.0)
+    for a, fe, lim in RANGE_ATTRS:
+        setattr(t2, a, getattr(getattr(th, fe), lim)[0])
+    t2.setExtrapolate()
+    return t2
+
+
+def same(x, y):
+    return x == y or (x != x and y != y)
+
+
+def probe_temps(th, absolute=()):
+    out = list(absolute)
+    for ph in ("High", "Low"):
+        lo, hi = getattr(th, "TMin" + ph + "T"), getattr(th, "TMax" + ph + "T")
+        out += [0.5 * lo, lo, lo + 0.37 * (hi - lo), hi, 1.5 * hi]
+    return [float(t) for t in out if t > 0 and math.isfinite(t)]
+
+
+def twin_check(ctx, th, label, case, absolute=()):
+    """bit-equal with a fresh object on the same tables, at the same temperatures"""
+    t2 = fresh_twin(th)
+    for a in gen_thermo.ATTRS:
+        ctx.count("twin_" + label)
+        if not same(float(getattr(th, a)), float(getattr(t2, a))):
+            ctx.fail_input("after its history the object's %s = %r, a fresh object on the "
+                           "same tables has %r [%s]" % (a, getattr(th, a), getattr(t2, a),
+                                                        label),
+                           dict(kind="twin_attr", attr=a, case=case), key="history:attr:" + a)
+    for T in probe_temps(th, absolute):
+        v1, v2 = impl_values(th, T), impl_values(t2, T)
+        for k in v1:
+            ctx.count("twin_" + label)
+            if not same(v1[k], v2[k]):
+                ctx.fail_input("%s(%.9g) = %r after the object's history, %r on a fresh "
+                               "object built on the same tables [%s]" % (k, T, v1[k], v2[k],
+                                                                         label),
+                               dict(kind="twin", fn=k, T=T, got=v1[k], fresh=v2[k], case=case),
+                               key="history:differs-from-fresh-object:" + k)
+                return False
+    return True
+
+
+def hypotheses_hold(ctx, th, label):
+    """the hypotheses of the theorems (positive enthalpy and heat capacity at the ends of both
+    tabulated ranges) asserted on the object itself"""
+    ok = True
+    for ph in ("High", "Low"):
+        lo, hi = getattr(th, "TMin" + ph + "T"), getattr(th, "TMax" + ph + "T")
+        dp, ddp = getattr(th, "dp" + ph + "T"), getattr(th, "ddp" + ph + "T")
+        good = 0 < lo < hi and all(float(dp(x)) > 0 and float(ddp(x)) > 0 for x in (lo, hi))
+        ctx.count("hypotheses_" + label, bucket="hold" if good else "outside proven domain")
+        if not good:
+            ctx.log("NOTE %s phase of a %s model is outside the theorems' hypotheses "
+                    "(w>0, de/dT>0 at the range ends)" % (ph, label))
+        ok = ok and good
+    return ok
 
 
 def eval_file(model_id, cH, rH, cL, rL, rows):
@@ -164,7 +249,7 @@ Ltac ev :=
   destruct (extrapolation_matched_High e0 s00 H1 H2 H3 H4 H5 H6) as [[Hmu [HA Heps]] [Hmu' [HA' Heps']]];
   destruct (extrapolation_matched_Low e0 s00 L1 L2 L3 L4 L5 L6) as [[Lmu [LA Leps]] [Lmu' [LA' Leps']]];
   destruct (S_range_High e0 s00) as [Ra Rb]; destruct (S_range_Low e0 s00) as [Qa Qb];
-  unfold alpha, eHighT, wHighT, eLowT, wLowT;
+  repeat progress unfold alpha, eHighT, wHighT, eLowT, wLowT, deHighT, deLowT;
   rewrite ?deHighT_is_DE, ?deLowT_is_DE;
   rewrite ?pHighT_is_P, ?dpHighT_is_DP, ?ddpHighT_is_DDP, ?csqHighT_is_CSQ,
           ?pLowT_is_P, ?dpLowT_is_DP, ?ddpLowT_is_DDP, ?csqLowT_is_CSQ;
@@ -191,8 +276,9 @@ Ltac ev :=
 
 def traced_model(ctx, rng, variant=0):
     """End to end: real FreeEnergy tables traced on the closed-form quartic potential.
-    variant 0: paranoid tracing, then a HISTORY on the same objects (limits lifted,
-    both phases re-traced over wider windows, setExtrapolate again);
+    variant 0: paranoid tracing, then a HISTORY on the same objects (limits lifted, both
+    phases re-traced over wider, then over narrower shifted windows, setExtrapolate again,
+    findCriticalTemperature in between);
     variant 1: non-paranoid tracing with a very tight tolerance (the re-minimisation
     branch of the tracer fires at most steps)."""
     import WallGo
@@ -201,35 +287,68 @@ def traced_model(ctx, rng, variant=0):
     E = rng.choice([0.03, 0.05])
     lam = rng.choice([0.08, 0.1])
     T0 = rng.choice([60.0, 80.0])
+    uTn, uLoH, uHiH, uLoL = (rng.uniform(0.3, 0.8), rng.uniform(0.1, 0.6),
+                             rng.uniform(1.0, 1.1), rng.uniform(0.95, 1.0))
     pot = wgmodels.quartic1(D=D, E=E, lam=lam, T0=T0)
     ex = wgmodels.quartic1_exact(**pot.params)
     pot.configureDerivatives(WallGo.VeffDerivativeSettings(
         temperatureVariationScale=1.0, fieldValueVariationScale=10.0))
-    Tn = 0.5 * (ex["Tc"] + T0)
+    # T0 (spinodal of the symmetric phase) < Tn < Tc < spinodal of the broken phase, and the
+    # start of every traced window lies strictly between T0 and Tn (tracePhase starts at Tn)
+    Tn = T0 + uTn * (ex["Tc"] - T0)
     th = Thermodynamics(pot, Tn, Fields([ex["phi_broken"](Tn)]), Fields([0.0]))
     dT = 0.004 * Tn
     paranoid = variant == 0
     rTol = 1e-8 if variant == 0 else 1e-12
     case = dict(model="quartic1", D=D, E=E, lam=lam, T0=T0, Tn=Tn, paranoid=paranoid,
                 rTol=rTol)
+    loH = T0 + uLoH * (Tn - T0)
+    absolute = [0.5 * T0, loH, Tn, ex["Tc"], ex["Tspin_broken"] * 0.999,
+                ex["Tspin_broken"] * 1.2, 3.0 * T0]
 
     def check(stage):
-        th.setExtrapolate()
         c2 = dict(case, stage=stage)
-        direct_checks(ctx, th, "traced", c2)
-        # p = -Veff at the (closed-form) minimum inside the range: between nodes and AT
-        # the table nodes themselves
+        # where Tn lies inside the old range copy AND inside the new table of a phase, the
+        # values at Tn do not depend on the extrapolation parameters, so they are the same
+        # before and after the call (the tracer may stop short of Tn near a spinodal: then
+        # Tn is extrapolated and nothing is claimed)
+        before = {}
+        if stage != "first trace":
+            for ph, fe in (("High", th.freeEnergyHigh), ("Low", th.freeEnergyLow)):
+                if getattr(th, "TMin" + ph + "T") <= Tn <= getattr(th, "TMax" + ph + "T") and \
+                        fe.minPossibleTemperature[0] <= Tn <= fe.maxPossibleTemperature[0]:
+                    for f in ("p", "dp", "ddp"):
+                        before[f + ph] = float(getattr(th, f + ph + "T")(Tn))
+        th.setExtrapolate()
+        if before:
+            for k, v in before.items():
+                ctx.count("before_after_setExtrapolate")
+                w = float(getattr(th, k + "T")(Tn))
+                if not same(v, w):
+                    ctx.fail_input("%sT(Tn) = %r before setExtrapolate(), %r after [%s]" % (
+                        k, v, w, stage), dict(kind="before_after", case=c2, fn=k),
+                        key="history:before-after:" + k)
+        hypotheses_hold(ctx, th, "traced")
+        nodes = {}
+        for ph, fe in (("High", th.freeEnergyHigh), ("Low", th.freeEnergyLow)):
+            lo, hi = fe.minPossibleTemperature[0], fe.maxPossibleTemperature[0]
+            nn = [float(t) for t in np.asarray(fe._interpolationPoints).ravel()
+                  if lo < t < hi]
+            nodes[ph] = nn[::max(1, len(nn) // 12)]
+        direct_checks(ctx, th, "traced", c2, extra=nodes)
+        twin_check(ctx, th, "traced", c2, absolute)
+        th.setExtrapolate()
+        twin_check(ctx, th, "traced_twice", c2, absolute)
+        # p = -Veff at the (closed-form) minimum inside the TABLE's range (taken from the
+        # free-energy objects, not from the copies th keeps): between nodes and AT the nodes
         for ph, phi, fe in (("High", lambda T: 0.0, th.freeEnergyHigh),
                             ("Low", ex["phi_broken"], th.freeEnergyLow)):
-            lo, hi = getattr(th, "TMin" + ph + "T"), getattr(th, "TMax" + ph + "T")
-            nodes = [float(t) for t in np.asarray(fe._interpolationPoints).ravel()
-                     if lo <= t <= hi]
-            pick = nodes[::max(1, len(nodes) // 12)]
-            for T in [lo + (hi - lo) * x for x in (0.05, 0.3, 0.6, 0.95)] + pick:
+            lo, hi = fe.minPossibleTemperature[0], fe.maxPossibleTemperature[0]
+            for T in [lo + (hi - lo) * x for x in (0.0, 0.05, 0.3, 0.6, 0.95, 1.0)] + nodes[ph]:
                 want = -ex["V"](phi(T), T)
                 got = float(getattr(th, "p" + ph + "T")(T))
                 ctx.count("p_in_range_traced")
-                if abs(got - want) > 1e-7 * abs(want):
+                if not abs(got - want) <= 1e-7 * abs(want):
                     ctx.fail_input(
                         "p%sT(%g) = %r but -Veff(min) = %r [%s]" % (ph, T, got, want,
                                                                      stage),
@@ -237,23 +356,98 @@ def traced_model(ctx, rng, variant=0):
                         key="p-in-range:" + ph)
                     return
 
+    def other_methods(stage):
+        """methods a user (and the manager) calls between setExtrapolate and the reads must
+        leave the equation of state alone"""
+        snap = {T: impl_values(th, T) for T in absolute}
+        try:
+            Tc = th.findCriticalTemperature(dT=0.05 * (ex["Tc"] - T0), rTol=rTol,
+                                            paranoid=paranoid)
+            ctx.count("findCriticalTemperature_called")
+            if not abs(Tc - ex["Tc"]) <= 1e-4 * ex["Tc"]:
+                ctx.log("NOTE findCriticalTemperature = %r, closed form %r" % (Tc, ex["Tc"]))
+        except WallGo.WallGoError as exc:
+            lo_, hi_ = th._getCoexistenceRange()
+            dF = lambda T: float(th.freeEnergyLow(T).veffValue - th.freeEnergyHigh(T).veffValue)
+            ctx.log("NOTE findCriticalTemperature raised", exc, "coexistence range", lo_, hi_,
+                    "closed-form Tc", ex["Tc"], "dF at the ends", dF(lo_), dF(hi_), case)
+        th._getCoexistenceRange()
+        for T, v in snap.items():
+            w = impl_values(th, T)
+            for k in v:
+                ctx.count("frame_other_methods")
+                if not same(v[k], w[k]):
+                    ctx.fail_input("%s(%.9g) changed from %r to %r by calling "
+                                   "findCriticalTemperature/_getCoexistenceRange [%s]" % (
+                                       k, T, v[k], w[k], stage),
+                                   dict(kind="frame", fn=k, T=T, case=dict(case, stage=stage)),
+                                   key="history:changed-by-other-method:" + k)
+                    return
+        twin_check(ctx, th, "traced_after_other_methods", dict(case, stage=stage), absolute)
+
     # different windows for the two phases (the ends then do not coincide)
-    th.freeEnergyHigh.tracePhase(T0 + 0.5, ex["Tspin_broken"] * rng.uniform(1.0, 1.1),
-                                 dT, rTol=rTol, paranoid=paranoid)
-    th.freeEnergyLow.tracePhase(0.9 * T0 * rng.uniform(0.95, 1.0),
-                                ex["Tspin_broken"] * 0.999, dT, rTol=rTol,
+    th.freeEnergyHigh.tracePhase(loH, ex["Tspin_broken"] * uHiH, dT, rTol=rTol,
+                                 paranoid=paranoid)
+    th.freeEnergyLow.tracePhase(0.9 * T0 * uLoL, ex["Tspin_broken"] * 0.999, dT, rTol=rTol,
                                 paranoid=paranoid)
     check("first trace")
+    other_methods("first trace")
     if variant == 0:
-        # history: lift the limits and trace again, wider, on the SAME objects
-        for fe in (th.freeEnergyHigh, th.freeEnergyLow):
-            fe.minPossibleTemperature = [0.0, False]
-            fe.maxPossibleTemperature = [np.inf, False]
-        th.freeEnergyHigh.tracePhase(T0 + 0.5, ex["Tspin_broken"] * 1.3, dT, rTol=rTol)
+        # history: lift the limits and trace again on the SAME objects, wider ...
+        def lift():
+            for fe in (th.freeEnergyHigh, th.freeEnergyLow):
+                fe.minPossibleTemperature = [0.0, False]
+                fe.maxPossibleTemperature = [np.inf, False]
+        lift()
+        th.freeEnergyHigh.tracePhase(T0 + 0.05 * (Tn - T0), ex["Tspin_broken"] * 1.3, dT,
+                                     rTol=rTol)
         th.freeEnergyLow.tracePhase(0.6 * T0, ex["Tspin_broken"] * 0.999, dT, rTol=rTol)
         check("re-traced wider on the same objects")
+        # ... and narrower, shifted
+        lift()
+        th.freeEnergyHigh.tracePhase(Tn - 0.3 * (Tn - T0), ex["Tc"] * 1.02, dT, rTol=rTol)
+        th.freeEnergyLow.tracePhase(0.95 * T0, ex["Tc"] * 1.01, dT, rTol=rTol)
+        check("re-traced narrower on the same objects")
+        other_methods("re-traced narrower")
     ctx.sample(dict(traced=case, ranges=[th.TMinHighT, th.TMaxHighT, th.TMinLowT,
                                          th.TMaxLowT]))
+
+
+def stub_history(ctx, th, rng, case):
+    """histories on one object with analytic tables: setExtrapolate twice, other methods in
+    between, the tables' ranges moved (what a re-trace does) and setExtrapolate again"""
+    from WallGo import WallGoError
+    twin_check(ctx, th, "stub", case)
+    th.setExtrapolate()
+    twin_check(ctx, th, "stub_twice", case)
+    snap = {T: impl_values(th, T) for T in probe_temps(th)}
+    try:
+        lo, hi = th._getCoexistenceRange()
+        if lo < hi:
+            th.findCriticalTemperature(dT=(hi - lo) / 40.0)
+    except WallGoError:
+        pass
+    for T, v in snap.items():
+        w = impl_values(th, T)
+        for k in v:
+            ctx.count("frame_other_methods")
+            if not same(v[k], w[k]):
+                ctx.fail_input("%s(%.9g) changed from %r to %r by calling "
+                               "findCriticalTemperature/_getCoexistenceRange [stub]" % (
+                                   k, T, v[k], w[k]),
+                               dict(kind="frame", fn=k, T=T, case=case),
+                               key="history:changed-by-other-method:" + k)
+                return
+    # move the ranges (shrink one phase, shift the other), as a re-trace would
+    for fe, (fa, fb) in ((th.freeEnergyHigh, (rng.uniform(0.0, 0.3), rng.uniform(0.6, 1.0))),
+                         (th.freeEnergyLow, (rng.uniform(0.0, 0.4), rng.uniform(0.5, 1.0)))):
+        lo, hi = fe.minPossibleTemperature[0], fe.maxPossibleTemperature[0]
+        fe.minPossibleTemperature = [lo + fa * (hi - lo), False]
+        fe.maxPossibleTemperature = [lo + fb * (hi - lo), False]
+    th.setExtrapolate()
+    c2 = dict(case, stage="ranges moved on the same object")
+    direct_checks(ctx, th, "stub_moved", c2)
+    twin_check(ctx, th, "stub_moved", c2, list(snap))
 
 
 def run(ctx):
@@ -263,12 +457,20 @@ def run(ctx):
         text, tr = gen_thermo.generate(src)
         ctx.write("Thermo.v", text, sources=dict(file="src/WallGo/thermodynamics.py",
                                                  sha=vlib.sha(src), spans=tr.spans))
+        ftext, finfo = gen_thermo.frame_facts(vlib.SRC)
+        ctx.write("ThermoFacts.v", ftext, sources=dict(
+            file="src/WallGo/**/*.py (%d files)" % finfo["files"], sha=vlib.sha(ftext)))
+        for w in finfo["foreign"] + finfo["dynamic"]:
+            ctx.log("writer of a modelled attribute outside __init__/setExtrapolate:", w)
+        for m in finfo["writers"]:
+            if m not in ("__init__", "setExtrapolate"):
+                ctx.log("method %s assigns %s" % (m, finfo["writers"][m]))
     except pyrx.TranslateError as e:
         ctx.log("translator failed:", e)
         ctx.broken.append("translator: %s" % e)
         gen_ok = False
-    proved = gen_ok and ctx.prove(extra=["Thermo.v"])
-    ctx.trusted += ["tools/pyrx.py + tools/gen_thermo.py (AST translator)",
+    proved = gen_ok and ctx.prove(extra=["Thermo.v", "ThermoFacts.v"])
+    ctx.trusted += ["tools/pyrx.py + tools/gen_thermo.py (AST translator, writer facts)",
                     "Interval tactic (certified evaluation; uses kernel primitive "
                     "floats/ints)"]
     # --- stub models: direct property checks + certified correspondence -------------
@@ -277,70 +479,112 @@ def run(ctx):
     rng = ctx.rng
     files = []
     for m in range(ndirect):
+        # every random choice is drawn whether or not the proofs went through, so that a
+        # broken proof does not change the inputs of the search
         cH, rH = rand_stub(rng)
         cL, rL = rand_stub(rng)
+        tlist = {ph: temps(rng, *r) for ph, r in (("High", rH), ("Low", rL))} \
+            if m < nmodels else None
+        hrng = random.Random(rng.random())
         case = dict(cHigh=jfr(cH), rangeHigh=jfr(rH), cLow=jfr(cL), rangeLow=jfr(rL))
         th = wgmodels.stub_thermodynamics(cH, rH, cL, rL, float(rH[0]))
         try:
             th.setExtrapolate()
             direct_checks(ctx, th, "stub", case)
+            hypotheses_hold(ctx, th, "stub")
         except Exception as ex:
             ctx.fail_input("Thermodynamics raised %r" % ex, dict(kind="raise", case=case),
                            key="raises")
             continue
         ctx.count("stub_model", case, bucket="TMaxLow%sTMaxHigh" % (
             ">" if rL[1] > rH[1] else "<="))
-        if m < nmodels and proved:
+        if m < nmodels:
             rows = []
             for ph, r in (("High", rH), ("Low", rL)):
-                for T in temps(rng, *r):
+                for T in tlist[ph]:
                     vals = impl_values(th, T)
                     for fn in ("p", "dp", "ddp", "csq", "e", "w"):
                         rows.append((fn + ph + "T", T, vals[fn + ph + "T"]))
             Tmid = rH[0] + (rH[1] - rH[0]) / 2
             rows.append(("alpha", Tmid, impl_values(th, Tmid)["alpha"]))
-            files.append((m, case, rows,
-                          ctx.write("Cases/Eval_%d.v" % m,
-                                    eval_file(m, cH, rH, cL, rL, rows))))
+            if proved:
+                files.append((m, case, rows,
+                              ctx.write("Cases/Eval_%d.v" % m,
+                                        eval_file(m, cH, rH, cL, rL, rows))))
             if m == 0:
                 ctx.sample(dict(stub=case, some_values=[(r[0], str(r[1]), r[2])
                                                         for r in rows[:6]]))
-    # compile the certified evaluations in parallel
-    import subprocess
-    procs = [(m, case, rows, p, subprocess.Popen(
-        ["timeout", "900", "coqc"] + ctx.coq_args() + [p], cwd=ctx.bdir,
-        stdout=subprocess.PIPE, stderr=subprocess.PIPE, text=True))
-        for m, case, rows, p in files]
-    for m, case, rows, p, pr in procs:
+        try:
+            stub_history(ctx, th, hrng, case)
+        except Exception as ex:
+            ctx.log(traceback.format_exc())
+            ctx.fail_input("Thermodynamics raised %r during a history on one object" % ex,
+                           dict(kind="raise", case=case), key="raises:history")
+    # compile the certified evaluations, at most 8 at a time
+    pending = list(files)
+    running = []
+
+    def reap(m, case, rows, p, pr):
         out, err = pr.communicate()
         for _ in rows:
             ctx.count("certified_eval")
-        if pr.returncode != 0:
+        if pr.returncode == 124:
+            ctx.broken.append("correspondence: certified evaluation Eval_%d timed out" % m)
+        elif pr.returncode != 0:
             ctx.broken.append("correspondence: certified evaluation Eval_%d" % m)
             ctx.log("certified evaluation failed", vlib.tail(err, 6))
-            ln = None
-            import re
             mm = re.search(r"line (\d+)", err)
+            if mm:
+                txt = open(p).read().splitlines()
+                ln = min(int(mm.group(1)), len(txt))
+                goal = next((txt[k] for k in range(ln - 1, -1, -1)
+                             if txt[k].startswith("Goal")), "?")
+                ctx.log("failing row:", goal)
+                k = [g for g in range(len(rows)) if (" %s e0" % rows[g][0]) in goal
+                     and (" %s - " % pyrx.rlit(rows[g][1])) in goal]
+                if k:
+                    fn, T, y = rows[k[0]]
+                    ctx.fail_input("%s(%s) = %r on the implementation is not the value of "
+                                   "the generated model (certified interval evaluation)" % (
+                                       fn, T, y),
+                                   dict(kind="model_vs_impl", fn=fn, T=str(T), impl=y,
+                                        case=case), key="model-vs-impl:" + fn)
             ctx.log("model", json.dumps(case))
+
+    while pending or running:
+        while pending and len(running) < 8:
+            m, case, rows, p = pending.pop(0)
+            running.append((m, case, rows, p, subprocess.Popen(
+                ["timeout", "900", "coqc"] + ctx.coq_args() + [p], cwd=ctx.bdir,
+                stdout=subprocess.PIPE, stderr=subprocess.PIPE, text=True)))
+        reap(*running.pop(0))
     # --- traced potentials ------------------------------------------------------------
     for it in range(ctx.n(2, 10)):
+        trng = random.Random(rng.random())
         try:
-            traced_model(ctx, rng, variant=it % 2)
+            traced_model(ctx, trng, variant=it % 2)
         except Exception as ex:
-            import traceback
             ctx.log("traced model raised", traceback.format_exc())
-            ctx.broken.append("harness: traced model raised %r" % ex)
+            ctx.fail_input("tracing / evaluating a traced model raised %r" % ex,
+                           dict(kind="raise_traced", variant=it % 2), key="raises:traced")
     ctx.cov["rule"] = (
         "stub models: random dyadic free energies k0+k2T^2-k3T^3-k4T^4 with independent "
         "ranges for the two phases (both orderings of the upper ends occur); each model "
-        "is probed at 13 temperatures per phase from 0.2 TMin to 7 TMax plus 1e-9-close "
-        "points on both sides of all four range ends; distinct = distinct coefficient/"
-        "range tuple; traced models use the real FreeEnergy.tracePhase")
+        "is probed at 17 temperatures per phase from 0.2 TMin to 7 TMax (5e-6-close to the "
+        "ends included) plus 1e-9-close points on both sides of all four range ends, then "
+        "taken through a history on the same object (setExtrapolate twice, "
+        "findCriticalTemperature/_getCoexistenceRange, ranges moved, setExtrapolate) and "
+        "compared bit for bit with a fresh object on the same tables; distinct = distinct "
+        "coefficient/range tuple; traced models use the real FreeEnergy.tracePhase with "
+        "random Tn and windows, three traces on the same objects")
     ctx.assumptions += [
         "the interpolation spline and its derivative(order) are a C2 function and its "
-        "derivatives (external: scipy CubicSpline)",
+        "derivatives (external: scipy CubicSpline; central differences at the probe points "
+        "and at table nodes)",
         "w>0 and de/dT>0 at the ends of each tabulated range (hypotheses of the theorems; "
-        "checked on every generated model)"]
+        "asserted on every stub and traced object, counted under hypotheses_*)",
+        "the tables are -Veff at the traced minimum (property C11; here only compared with "
+        "the closed form on windows that stop short of both spinodals)"]
 
 
 def replay(rep):
